@@ -103,6 +103,24 @@ class Link(base.BaseObject):
         if (new is not None) and (self not in new.links):
             new.add_to_link(self)
 
+        self._invalidate_neighbor_caches()
+
+    def _invalidate_neighbor_caches(self):
+        """
+        Invalidate the cached neighbors of every vertex this link connects.
+
+        **FOR INTERNAL USE ONLY!!**
+
+        Whenever the set of ends of a link changes, the neighbors of *all* its
+        ends change with it -- not only those of the vertex being attached or
+        detached -- so every one of them must forget its cached answers.
+        """
+        for vert in self._vertices:
+            if vert is not None:
+                # still edgegraph-internal code, so this access is ok
+                # pylint: disable-next=protected-access
+                vert._qa_neighbors_invalidate()
+
     def unlink_from(self, kill: Vertex):
         """
         Remove the link association from the given vertex.
@@ -121,3 +139,5 @@ class Link(base.BaseObject):
 
             if kill is not None:
                 kill.remove_from_link(self)
+
+            self._invalidate_neighbor_caches()
